@@ -176,6 +176,28 @@ def _canonicalise_import_aliases(tree):
     return count
 
 
+def _canonicalise_shape0(tree):
+    """`x.shape[0]` is read as `len(x)` (x a name, attribute or subscript chain): the two spellings of the number of rows of an array"""
+    count = 0
+
+    def pure(e):
+        return isinstance(e, ast.Name) or (isinstance(e, ast.Attribute) and pure(e.value)) or (isinstance(e, ast.Subscript) and pure(e.value))
+
+    class T(ast.NodeTransformer):
+        def visit_Subscript(self, n):
+            nonlocal count
+            self.generic_visit(n)
+            if isinstance(n.ctx, ast.Load) and isinstance(n.value, ast.Attribute) and n.value.attr == "shape" and isinstance(n.slice, ast.Constant) and n.slice.value == 0 \
+                    and not isinstance(n.slice.value, bool) and pure(n.value.value):
+                count += 1
+                return ast.copy_location(ast.Call(func=ast.copy_location(ast.Name(id="len", ctx=ast.Load()), n), args=[n.value.value], keywords=[]), n)
+            return n
+    T().visit(tree)
+    if count:
+        ast.fix_missing_locations(tree)
+    return count
+
+
 def _canonicalise_subscripts(tree):
     """`x[i, :]` is read as `x[i]`: trailing full slices of a subscript tuple select nothing (numpy basic indexing), so no rule depends on them"""
     count = 0
@@ -486,7 +508,9 @@ class Module:
         _canonicalise_comparisons(self.tree)
         self.aliases_canonicalised = 0 if os.environ.get("VERIF_NO_ALIAS_CANON") == "1" else _canonicalise_import_aliases(self.tree)
         self.constants_canonicalised = 0 if os.environ.get("VERIF_NO_CONST_CANON") == "1" else _canonicalise_module_constants(self.tree)
-        self.attr_loops_canonicalised = 0 if os.environ.get("VERIF_NO_ATTRLOOP_CANON") == "1" else _canonicalise_attr_loops(self.tree)
+        self.attr_loops_canonicalised = 0 if (os.environ.get("VERIF_NO_ATTRLOOP_CANON") == "1" or ("getattr" not in src and "setattr" not in src)) \
+            else _canonicalise_attr_loops(self.tree)
+        self.shape0_canonicalised = 0 if (os.environ.get("VERIF_NO_SHAPE_CANON") == "1" or ".shape" not in src) else _canonicalise_shape0(self.tree)
         self.subscripts_canonicalised = 0 if os.environ.get("VERIF_NO_SUBSCRIPT_CANON") == "1" else _canonicalise_subscripts(self.tree)
         self.branches_canonicalised = 0 if os.environ.get("VERIF_NO_BRANCH_CANON") == "1" else _canonicalise_branches(self.tree)
         self.temporaries_canonicalised = 0 if os.environ.get("VERIF_NO_TEMP_CANON") == "1" else _canonicalise_temporaries(self.tree)
